@@ -468,9 +468,15 @@ func (s *state) walkUseNode(node *parse.UseNode) error {
 	if err != nil {
 		return err
 	}
-	blocks := tree.Blocks()
+	// Every alias refers to a block of the used template as that template
+	// names it, whatever the other aliases of the statement rename.
+	defined := tree.Blocks()
+	blocks := make(map[string]*parse.BlockNode, len(defined)+len(node.Aliases))
+	for name, block := range defined {
+		blocks[name] = block
+	}
 	for orig, alias := range node.Aliases {
-		v, ok := blocks[orig]
+		v, ok := defined[orig]
 		if !ok {
 			return errors.New("Unable to locate block with name \"" + orig + "\"")
 		}
